@@ -13,9 +13,14 @@ import (
 
 func pbServCtrlSerialize(ctrl *MsgServerCtrl) *pbx.ServerMsg_Ctrl {
 	var params map[string][]byte
-	if ctrl.Params != nil {
-		if in, ok := ctrl.Params.(map[string]any); ok {
-			params = interfaceMapToByteMap(in)
+	switch in := ctrl.Params.(type) {
+	case map[string]any:
+		params = interfaceMapToByteMap(in)
+	case map[string]string:
+		// Some replies (303 "use other", 204 "no content") carry string-only parameters.
+		params = make(map[string][]byte, len(in))
+		for key, val := range in {
+			params[key], _ = json.Marshal(val)
 		}
 	}
 
